@@ -4,14 +4,18 @@ from ..runner import Spec, Case
 from .. import core
 
 NROOTS = 64
-WORDS = 'PMRB'; SEQ = 'ALH'; IMAP = 'TE'; RMAP = 'UF'
+WORDS = 'PMRB'; SEQ = 'ALH'; ARR = 'AL'; MAPS = 'TE'
+# kind letter -> (kind, default key type, default element / value type); the letters U / F are T / E with Ref keys
+LETTER = {'P': ('P', 'R', 'R'), 'M': ('M', 'R', 'R'), 'R': ('R', 'R', 'R'), 'B': ('B', 'R', 'R'), 'A': ('A', 'R', 'R'), 'L': ('L', 'R', 'R'),
+          'T': ('T', 'I', 'R'), 'U': ('T', 'R', 'R'), 'E': ('E', 'I', 'R'), 'F': ('E', 'R', 'R'), 'H': ('H', 'R', 'R')}
+LEAF_T = 'ISF'
 CHAIN_CAP = {'R': 20000, 'P': 20000, 'A': 6000, 'H': 8000, 'U': 4000, 'L': 6000, 'E': 4000}
 
 class Shadow:
     """the generator's own picture of the heap (keeps generated ops valid; not an oracle)"""
     def __init__(self, full):
         self.full = full
-        self.o = {}            # id -> dict(kind, k, root, owner, el[list of tok], key[list])
+        self.o = {}            # id -> dict(kind, k, root, owner, el[list of tok], key[list], kt, vt: CURRENT key / element types)
         self.used = set()
         self.roots = ['n'] * NROOTS
         self.tls = {}
@@ -19,6 +23,7 @@ class Shadow:
         self.lines = ['mode full' if full else 'mode exact']
         self.next_id = 0
         self.stats = {}
+        self.focus = False     # re-typing campaign: mostly containers, half of them leaf-typed, many assign / copy / clear
     # ---- helpers
     def emit(self, l):
         self.lines.append(l); k = l.split()[0]; self.stats[k] = self.stats.get(k, 0) + 1
@@ -29,15 +34,17 @@ class Shadow:
         ow = self.o[i]['owner']; return ow is not None and ow in self.o
     def targets(self):
         return [i for i in self.o if not self.owned(i)]
+    def refkeys(self, o): return o['kind'] in MAPS and o['kt'] == 'R'
+    def refvals(self, o): return o['vt'] == 'R' if (o['kind'] in ARR or o['kind'] in MAPS) else True
     def out_edges(self, i):
-        o = self.o[i]; e = [int(t[1:]) for t in o['el'] if t[0] == 'o']
-        if o['kind'] in RMAP: e += list(o['key'])
+        o = self.o[i]; e = [int(t[1:]) for t in o['el'] if t[0] == 'o'] if self.refvals(o) else []
+        if self.refkeys(o): e += list(o['key'])
         return e
     def has_incoming(self, i, except_slot=None):
         for j, o in self.o.items():
             if j == i: continue
             if ('o%d' % i) in o['el']: return True
-            if o['kind'] in RMAP and i in o['key']: return True
+            if self.refkeys(o) and i in o['key']: return True
         for s, t in enumerate(self.roots):
             if s != except_slot and t == 'o%d' % i: return True
         return ('o%d' % i) in self.tls.values()
@@ -64,20 +71,55 @@ class Shadow:
                 if self.o[i]['kind'] in 'HM': self.ghost.update(int(t[1:]) for t in self.o[i]['el'] if t[0] == 'o')
                 del self.o[i]
     # ---- ops
-    def new(self, kind, arg='-', slot=None, root=False, boxtgt=None):
+    def new(self, letter, arg='-', slot=None, root=False, boxtgt=None):
+        """letter: op-file kind letter; arg for containers: '-' or element type (A/L) or key type + value type (T/U/E/F)"""
         i = self.fresh(); self.used.add(i)
+        kind, kt, vt = LETTER[letter]
+        if kind in ARR and arg != '-': vt = arg
+        if kind in MAPS and arg != '-': kt, vt = arg[0], arg[1]
         k = {'P': int(arg) if kind == 'P' else 0, 'M': 4, 'R': 1, 'B': 1}.get(kind, 0)
-        self.o[i] = dict(kind=kind, k=k, root=root, owner=None, el=(['n'] * k if kind in WORDS else []), key=[])
+        self.o[i] = dict(kind=kind, k=k, root=root, owner=None, el=(['n'] * k if kind in WORDS else []), key=[], kt=kt, vt=vt)
         if kind == 'B': self.o[i]['el'][0] = 'o%d' % boxtgt; self.o[boxtgt]['owner'] = i; arg = str(boxtgt)
         where = '-' if slot is None else 's%d' % slot
         if slot is not None: self.roots[slot] = 'o%d' % i
-        self.emit(f"new {i} {kind}{'!' if root else ''} {arg} {where}")
+        self.emit(f"new {i} {letter}{'!' if root else ''} {arg} {where}")
         if self.full: self.checkpoint()
         return i
+    # ---- re-typing ops
+    def can_assign(self, d, s):
+        if d == s or d not in self.o or s not in self.o: return False
+        od, os_ = self.o[d], self.o[s]
+        if od['kind'] in ARR and os_['kind'] in ARR: return True
+        if od['kind'] in ARR and os_['kind'] == 'H':
+            return all(t[0] == 'o' and int(t[1:]) in self.o and self.o[int(t[1:])]['kind'] != 'B' for t in os_['el'])
+        if od['kind'] in MAPS and os_['kind'] in MAPS: return True
+        return od['kind'] == 'H' and os_['kind'] == 'H'
+    def assign(self, d, s):
+        od, os_ = self.o[d], self.o[s]
+        if od['kind'] in ARR and os_['kind'] == 'H':
+            od['vt'] = 'R'
+            od['el'] = [(self.o[int(t[1:])]['el'][0] if self.o[int(t[1:])]['kind'] == 'R' else t) for t in os_['el']]
+        else:
+            if od['kind'] in ARR: od['vt'] = os_['vt']
+            if od['kind'] in MAPS: od['kt'], od['vt'] = os_['kt'], os_['vt']; od['key'] = list(os_['key'])
+            od['el'] = list(os_['el'])
+        self.emit(f'assign {d} {s}')
+    def copy(self, s, slot=None):
+        i = self.fresh(); self.used.add(i); os_ = self.o[s]
+        self.o[i] = dict(kind=os_['kind'], k=0, root=False, owner=None, el=list(os_['el']), key=list(os_['key']), kt=os_['kt'], vt=os_['vt'])
+        if slot is not None: self.roots[slot] = 'o%d' % i
+        self.emit(f"copy {i} {s} {'-' if slot is None else 's%d' % slot}")
+        if self.full: self.checkpoint()
+        return i
+    def clear(self, i):
+        self.o[i]['el'] = []; self.o[i]['key'] = []; self.emit(f'clear {i}')
+    def trunc(self, i, n):
+        if self.o[i]['kind'] in ARR: del self.o[i]['el'][n:]
+        self.emit(f'trunc {i} {n}')
     def pair(self, slot=None):
         a = self.fresh(); b = self.fresh(); self.used.update((a, b))
-        self.o[a] = dict(kind='R', k=1, root=False, owner=None, el=['n'], key=[])
-        self.o[b] = dict(kind='R', k=1, root=False, owner=None, el=['o%d' % a], key=[])
+        self.o[a] = dict(kind='R', k=1, root=False, owner=None, el=['n'], key=[], kt='R', vt='R')
+        self.o[b] = dict(kind='R', k=1, root=False, owner=None, el=['o%d' % a], key=[], kt='R', vt='R')
         if slot is not None: self.roots[slot] = 'o%d' % b
         self.emit(f"pair {a} {b} {'-' if slot is None else 's%d' % slot}")
         if self.full: self.checkpoint()
@@ -119,24 +161,63 @@ class Shadow:
         self.emit('collect'); self.checkpoint()
     def churn(self, n):
         self.emit(f'churn {n}'); self.checkpoint()
-    def chain(self, n, kind, slot=None):
+    def chain(self, n, letter, slot=None):
         base = self.next_id; self.next_id += n
+        kind, kt, vt = LETTER[letter]
         for i in range(n - 1, -1, -1):
             k = 1 if kind in 'RP' else 0
-            self.o[base + i] = dict(kind=kind, k=k, root=False, owner=None, el=(['n'] * k if kind in WORDS else []), key=[])
+            self.o[base + i] = dict(kind=kind, k=k, root=False, owner=None, el=(['n'] * k if kind in WORDS else []), key=[], kt=kt, vt=vt)
             self.used.add(base + i)
             if slot is not None: self.roots[slot + (i & 1)] = 'o%d' % (base + i)
             if i < n - 1:
                 o = self.o[base + i]; t = 'o%d' % (base + i + 1)
                 if kind in WORDS: o['el'][0] = t
                 elif kind in SEQ: o['el'].append(t)
-                elif kind in IMAP: o['key'].append(7); o['el'].append(t)
+                elif kt != 'R': o['key'].append(7); o['el'].append(t)
                 else: o['key'].append(base + i + 1); o['el'].append(t)
-        self.emit(f"chain {base} {n} {kind} {'-' if slot is None else 's%d' % slot}")
+        self.emit(f"chain {base} {n} {letter} {'-' if slot is None else 's%d' % slot}")
         if self.full: self.checkpoint()
         return base
 
 KINDS = ['P', 'P', 'P', 'R', 'R', 'M', 'A', 'L', 'T', 'U', 'E', 'F', 'H', 'H', 'B']
+
+FOCUS_KINDS = ['P', 'P', 'R', 'A', 'L', 'T', 'T', 'U', 'E', 'F', 'H', 'A', 'T']
+
+def rand_types(rng, letter, focus=False):
+    """type argument of `new` for a container: mostly the default (reference-bearing), sometimes leaf / mixed types"""
+    if focus and letter in ARR: return rng.choice(['-', 'R', 'I', 'S', 'F', 'I'])
+    if focus and letter in 'TUEF': return rng.choice(['-', 'II', 'SI', 'IS', 'SR', 'IR', 'IF', 'SS', 'RR', 'RI', 'SI', 'II'])
+    if letter in ARR: return rng.choice(['-', '-', 'R', 'I', 'S', 'F', 'I'])
+    if letter in 'TUEF': return rng.choice(['-', '-', '-', 'II', 'SI', 'IS', 'SR', 'RI', 'IF', 'SS', 'RR', 'IR', 'RF', 'SF'])
+    return '-'
+
+def retype(rng, sh, cands, new_slot_fn):
+    """a re-typing op on the live containers: assign between containers of different element types, copy, clear, trunc.
+    Returns False when no candidate exists."""
+    conts = [c for c in cands if sh.o[c]['kind'] in 'ALTEH']
+    if not conts: return False
+    q = rng.random()
+    if q < 0.62:
+        d = rng.choice(conts)
+        srcs = [c for c in conts if sh.can_assign(d, c)]
+        # prefer a source whose types differ from the target's (leaf -> reference-bearing and back)
+        diff = [c for c in srcs if (sh.o[c]['kt'], sh.o[c]['vt']) != (sh.o[d]['kt'], sh.o[d]['vt']) or sh.o[c]['kind'] != sh.o[d]['kind']]
+        if diff and rng.random() < 0.8: srcs = diff
+        if not srcs: return False
+        sh.assign(d, rng.choice(srcs))
+    elif q < 0.80:
+        sh.copy(rng.choice(conts), new_slot_fn())
+    elif q < 0.90:
+        c = [x for x in conts if sh.o[x]['kind'] != 'H']
+        if not c: return False
+        sh.clear(rng.choice(c))
+    else:
+        c = [x for x in conts if (sh.o[x]['kind'] in ARR and sh.o[x]['el']) or sh.o[x]['kind'] == 'T']
+        if not c: return False
+        i = rng.choice(c)
+        if sh.o[i]['kind'] in ARR: sh.trunc(i, rng.randrange(1, len(sh.o[i]['el']) + 1))
+        else: sh.trunc(i, max(1, len(sh.o[i]['el'])) + rng.choice([0, 1, 7, 40]))
+    return True
 
 def rand_tok(rng, sh, cands, junk=True):
     r = rng.random()
@@ -152,9 +233,9 @@ def mutate(rng, sh, cands_fn, new_slot_fn):
     if r < 0.28 or not cands:
         if rng.random() < 0.08:
             sh.pair(new_slot_fn()); return
-        kind = rng.choice(KINDS)
+        kind = rng.choice(FOCUS_KINDS if sh.focus else KINDS)
         def mk(kind, slot, root=False):
-            return sh.new(kind, arg=str(rng.choice([1, 2, 4, 8])) if kind == 'P' else '-', slot=slot, root=root)
+            return sh.new(kind, arg=str(rng.choice([1, 2, 4, 8])) if kind == 'P' else rand_types(rng, kind, sh.focus), slot=slot, root=root)
         if kind == 'B':
             slot = new_slot_fn()
             t = mk(rng.choice(['P', 'R', 'A', 'H']), slot)
@@ -165,6 +246,7 @@ def mutate(rng, sh, cands_fn, new_slot_fn):
             return
         mk(kind, new_slot_fn(), root=rng.random() < (0.04 if sh.full else 0.08))
         return
+    if r < (0.58 if sh.focus else 0.40) and retype(rng, sh, cands, new_slot_fn): return
     i = rng.choice(cands); o = sh.o[i]; k = o['kind']
     tg = [c for c in cands if not sh.owned(c)]
     if k in 'PR' : sh.store(i, rng.randrange(o['k']), rand_tok(rng, sh, tg))
@@ -181,15 +263,15 @@ def mutate(rng, sh, cands_fn, new_slot_fn):
             t = rand_tok(rng, sh, tg, junk=False)
             if k == 'H' and t == 'n': return
             sh.push(i, t)
-    elif k in IMAP:
+    elif k in MAPS and o['kt'] != 'R':
         if o['key'] and rng.random() < 0.3: sh.trem(i, rng.choice(o['key']))
         else: sh.tset(i, rng.choice([rng.randrange(-5, 40), rng.randrange(40) * 1265 + 3]), rand_tok(rng, sh, tg, junk=False))
     else:
         if o['key'] and rng.random() < 0.3: sh.trem(i, rng.choice(o['key']))
         elif tg: sh.tset(i, rng.choice(tg), rand_tok(rng, sh, tg, junk=False))
 
-def gen_exact(rng, nops, maxobj, ncollect):
-    sh = Shadow(False)
+def gen_exact(rng, nops, maxobj, ncollect, focus=False):
+    sh = Shadow(False); sh.focus = focus
     every = max(3, nops // max(1, ncollect))
     for step in range(nops):
         r = rng.random()
@@ -213,8 +295,8 @@ def gen_exact(rng, nops, maxobj, ncollect):
     sh.xcollect([])
     return sh
 
-def gen_full(rng, nops, nslots):
-    sh = Shadow(True)
+def gen_full(rng, nops, nslots, focus=False):
+    sh = Shadow(True); sh.focus = focus
     def live(): return sorted(sh.reach(slots=True) & set(sh.o))
     for step in range(nops):
         r = rng.random()
@@ -247,7 +329,7 @@ def shape_cases(quick):
             i, j = ids[a], ids[(a + 1) % n]; k = sh.o[i]['kind']
             if k in 'PRM': sh.store(i, 0, f'o{j}')
             elif k in SEQ: sh.push(i, f'o{j}')
-            elif k in IMAP: sh.tset(i, 1, f'o{j}')
+            elif sh.o[i]['kt'] != 'R': sh.tset(i, 1, f'o{j}')
             else: sh.tset(i, j, f'o{j}')
         sh.xcollect([f'o{ids[3]}'])      # whole cycle survives from any entry point
         sh.xcollect([f'm{ids[0]}', f'i{ids[0]}', 'lo', 'hi', 's4096'])   # no real root: whole cycle is swept
@@ -282,8 +364,8 @@ def shape_cases(quick):
             if k == 'R': sh.store(i, 0, f'o{leaf}')
             elif k == 'M': sh.store(i, 3, f'o{leaf}')
             elif k in SEQ: sh.push(i, f'o{leaf}'); sh.push(i, f'o{leaf}')
-            elif k in IMAP: sh.tset(i, 5, f'o{leaf}')
-            elif k in RMAP: sh.tset(i, leaf, 'n')     # reachable as a KEY only
+            elif k in 'TE': sh.tset(i, 5, f'o{leaf}')
+            elif k in 'UF': sh.tset(i, leaf, 'n')     # reachable as a KEY only
             sh.xcollect([f'o{i}'])          # each representation alone keeps the leaf alive
             sh.xcollect([])
     ex('leaf_through_each_repr', sharing)
@@ -334,6 +416,99 @@ def shape_cases(quick):
         for j in range(n // 3 - 2): sh.pop(a, 0); sh.trem(t, (3 * j + 1) * 53)
         sh.xcollect([]); sh.delete(h); sh.xcollect([])
     ex('wide_containers', wide)
+    # ---- re-typing: leaf-typed container assign()ed from a reference-bearing one, then the sole path to the objects; and back
+    SEQ_LEAF = [('A', 'I'), ('A', 'S'), ('L', 'F'), ('L', 'I')]
+    SEQ_REF = [('A', '-'), ('L', 'R'), ('H', '-')]
+    MAP_LEAF = [('T', 'II'), ('T', 'SI'), ('E', 'IS'), ('E', 'II'), ('T', 'IF'), ('E', 'SF')]
+    MAP_REF = [('T', 'IR'), ('U', '-'), ('E', 'SR'), ('F', 'RI'), ('T', 'RI'), ('F', '-')]
+    def fill(sh, c, objs):
+        """put the objects into container c (as values, and as keys where the keys are references)"""
+        o = sh.o[c]
+        for n, x in enumerate(objs):
+            if o['kind'] in SEQ: sh.push(c, f'o{x}')
+            elif o['kt'] == 'R': sh.tset(c, x, f'o{objs[(n + 1) % len(objs)]}')
+            else: sh.tset(c, 100 + n, f'o{x}')
+    def fresh_objs(sh, slot_fn=lambda: None):
+        a = sh.new('P', arg='2', slot=slot_fn()); r = sh.new('R', slot=slot_fn()); b = sh.new('P', arg='1', slot=slot_fn())
+        sh.store(r, 0, f'o{b}')
+        return [a, r], [a, r, b]
+    def retype_pairs(sh, dsts, srcs, via_copy):
+        for (dl, dt) in dsts:
+            for (sl, st) in srcs:
+                d = sh.new(dl, arg=dt)
+                fill(sh, d, [d])                          # leaf content (an Int that equals the container's own address, a String, ...)
+                src = sh.new(sl, arg=st)
+                direct, allo = fresh_objs(sh)
+                fill(sh, src, direct)
+                if via_copy:
+                    c = sh.copy(src); sh.clear(src); sh.assign(d, c); sh.delete(c); sh.delete(src)
+                else:
+                    sh.assign(d, src); sh.delete(src)
+                sh.xcollect([f'o{d}'])                    # the re-typed container is the sole path: everything survives
+                sh.xcollect([f'o{d}'])
+                back = sh.new(dl, arg=dt); fill(sh, back, [allo[0]])
+                sh.assign(d, back)                        # back to leaf types: the objects are garbage, the container is not
+                sh.xcollect([f'o{d}'])
+                sh.xcollect([])
+    ex('retype_seq_leaf_to_ref', lambda sh: retype_pairs(sh, SEQ_LEAF, SEQ_REF, False))
+    ex('retype_map_leaf_to_ref', lambda sh: retype_pairs(sh, MAP_LEAF, MAP_REF, False))
+    ex('retype_seq_via_copy_clear', lambda sh: retype_pairs(sh, SEQ_LEAF[:2], SEQ_REF[:2], True))
+    ex('retype_map_via_copy_clear', lambda sh: retype_pairs(sh, MAP_LEAF[:3], MAP_REF[:3], True))
+    def retype_tuple(sh):
+        h1 = sh.new('H'); h2 = sh.new('H'); direct, allo = fresh_objs(sh)
+        fill(sh, h2, direct); sh.assign(h1, h2); sh.delete(h2); sh.xcollect([f'o{h1}'])
+        c = sh.copy(h1); sh.delete(h1); sh.xcollect([f'o{c}'])
+        e = sh.new('H'); sh.assign(c, e); sh.xcollect([f'o{c}', f'o{e}'])
+    ex('retype_tuple', retype_tuple)
+    def retype_grow(sh):
+        # re-typed containers keep working as containers: growth / rehash / shrink after the re-typing, TLS and root-flag holders
+        n = 40 if quick else 600
+        t = sh.new('T', arg='SI', root=True); a = sh.new('A', arg='F'); l = sh.new('L', arg='S'); e = sh.new('E', arg='II')
+        sh.settls(2, f'o{a}'); hold = sh.new('R', root=True); sh.store(hold, 0, f'o{l}'); sh.settls(3, f'o{e}')
+        st = sh.new('T', arg='IR'); sa = sh.new('L'); se = sh.new('F')
+        x0 = sh.new('P', arg='1'); sh.tset(st, 0, f'o{x0}'); sh.push(sa, f'o{x0}'); sh.tset(se, x0, f'o{x0}')
+        sh.assign(t, st); sh.assign(a, sa); sh.assign(l, sa); sh.assign(e, se)
+        for c in (st, sa, se): sh.delete(c)
+        xs = []
+        for j in range(n):
+            x = sh.new('P', arg='1'); xs.append(x)
+            sh.tset(t, j * 1265 + 1, f'o{x}'); sh.push(a, f'o{x}'); sh.push(l, f'o{x}'); sh.tset(e, x, f'o{x}')
+            if j % 13 == 12: sh.xcollect([])
+        sh.trunc(t, 2 * n); sh.xcollect([])
+        sh.trunc(a, n // 2); sh.trunc(l, n // 3); sh.xcollect([])
+        for j in range(n - 2): sh.trem(t, j * 1265 + 1); sh.trem(e, xs[j])
+        sh.xcollect([])
+        for c in (a, l, t, e): sh.clear(c)
+        sh.xcollect([])
+    ex('retype_then_grow_shrink', retype_grow)
+    def fullretype():
+        sh = Shadow(True)
+        slot = [20]
+        def nx():
+            slot[0] = 20 + (slot[0] - 19) % 30; return slot[0]
+        k = 0
+        for (dl, dt), (sl, st) in list(zip(SEQ_LEAF, SEQ_REF + SEQ_REF)) + list(zip(MAP_LEAF, MAP_REF)):
+            ds = k % 6; k += 1
+            d = sh.new(dl, arg=dt, slot=ds)
+            if k % 3 == 1: sh.settls(k % 5, f'o{d}'); sh.root(ds, 'n')                     # held by thread-local storage only
+            elif k % 3 == 2: hd = sh.new('R', slot=ds + 6, root=True); sh.store(hd, 0, f'o{d}'); sh.root(ds, 'n'); sh.root(ds + 6, 'n')   # by a root-registered holder
+            sh.churn(20)
+            ss = nx(); src = sh.new(sl, arg=st, slot=ss)
+            used = []
+            def sf():
+                used.append(nx()); return used[-1]
+            direct, allo = fresh_objs(sh, sf)
+            fill(sh, src, direct)
+            for u in used: sh.root(u, 'n')
+            sh.assign(d, src); sh.root(ss, 'n')
+            sh.collect(); sh.churn(rng_choice[k % len(rng_choice)]); sh.collect()
+            if k % 2:
+                c = sh.copy(d, slot=ss); sh.churn(30); sh.collect(); sh.root(ss, 'n')
+            bs = nx(); back = sh.new(dl, arg=dt, slot=bs); sh.assign(d, back); sh.root(bs, 'n')
+            sh.collect()
+        cs.append(Case('full_retype_sole_path', sh.lines, meta=dict(stats=sh.stats)))
+    rng_choice = [150, 40, 300, 90]
+    fullretype()
     def fullshape(sh_unused=None):
         sh = Shadow(True)
         a = sh.new('A', slot=0); x = sh.new('P', arg='2', slot=1); sh.push(a, f'o{x}'); sh.root(1, 'n')
@@ -362,12 +537,16 @@ class C01(Spec):
                  'reachability through every object representation; source-derived tables and fix-sensitive shapes regenerated each run; '
                  'white-box differential check of mark bits and swept sets against the real collector; shadow-graph oracle on the real GC_Mark')
     level_text = ('Theorems C01_mark_complete / C01_collect_safe: for every registered heap (any finite graph: cycles, sharing, self references, chains of any '
-                  'length), every object representation (plain words, Ref, Box, Array, List, Table keys+values, Tree keys+values, heap Tuple, thread-local table) '
+                  'length), every object representation (plain words, Ref, Box, Array, List, Table keys+values, Tree keys+values, heap Tuple, thread-local table; '
+                  'containers with their CURRENT element / key / value types, which assign() between containers redefines) '
                   'and every root set of the three kinds, the model of the mark phase marks every object reachable from the roots, and the model of the sweep '
                   'keeps every marked or root-flagged entry registered with unchanged contents and off the pending list; the marker is a total function that '
-                  'traces each entry at most once. The leaf-type list of GC_Recurse, the set of types declaring a Mark instance, the guarded shape of '
-                  'GC_Mark_And_Recurse, the TLS callback, the scan bound and the texts of the container Mark functions are regenerated from /repo on every run and '
-                  'the theorems are re-checked against them. The model is tied to the real collector by running generated heap histories on both and comparing '
+                  'traces each entry at most once. Histories include the re-typing operations (assign between containers of different element types, copy, '
+                  'resize to 0): after assign the target presents to the marker exactly what the source presents (C01_assign_retypes), and a re-typed container '
+                  'that is the sole path to an object keeps it alive (C01_retyped_sole_path_safe). The leaf-type list of GC_Recurse, the set of types declaring a Mark instance, the guarded shape of '
+                  'GC_Mark_And_Recurse, the TLS callback, the scan bound, the texts of the container Mark functions, the condition of every `return` / every loop header / every '
+                  'struct member read in them (no early return, loop over all slots / items, no cached flag), the members of the container structs and the functions '
+                  'that redefine the element types are regenerated from /repo on every run and the theorems are re-checked against them. The model is tied to the real collector by running generated heap histories on both and comparing '
                   'mark bits and swept sets exactly (real GC_Mark_Item/GC_Recurse/Mark instances/GC_Sweep on chosen root words), and the real GC_Mark (stack scan, '
                   'threshold-triggered and forced collections) is checked against a shadow-graph oracle: reachable ⊆ survivors, contents intact.')
     level_note = ('Trusted: Lean kernel; axioms propext/Quot.sound/Classical.choice at most; translate/g_gcmark.py (regex over GC.c and the Mark instances); the '
@@ -376,14 +555,19 @@ class C01(Spec):
                   'Tuples after an explicit del (known finding KF-C01-dangling-tuple-item), other threads (C13), '
                   'objects unregistered by hand, Box targets referenced from elsewhere (ownership misuse).')
     rule = ('heap-graph histories over 11 object kinds (plain structs of 1-8 words, a probe with its own Mark instance, Ref, Box, Array/List of Ref, Table '
-            'Int->Ref and Ref->Ref, Tree Int->Ref and Ref->Ref, heap Tuple) with random pointer stores (incl. misaligned, interior, out-of-range and small-integer '
+            'Int->Ref and Ref->Ref, Tree Int->Ref and Ref->Ref, heap Tuple) plus Array/List of Int/String/Float and Table/Tree with key type Ref/Int/String and value '
+            'type Ref/Int/String/Float; re-typing ops: assign between Array/List (and from a heap Tuple), between Table/Tree, between Tuples (the target takes over the '
+            'source\'s element types: leaf -> reference-bearing and back), copy, resize to 0 / shrink / rehash, after which the container is the sole path (root word, '
+            'stack slot, root-registered holder, TLS) to objects across exact, forced and threshold collections; random pointer stores (incl. misaligned, interior, out-of-range and small-integer '
             'words), container push/pop/set/remove crossing grow/shrink/rehash, TLS entries, root-registered holders, stack-slot roots, explicit del, and '
             'collections; exact mode: real mark functions on a chosen root-word list + real GC_Sweep, mark bits and swept set compared with the model; full mode: '
             'real GC_Mark/GC_Sweep triggered by allocation thresholds and forced. Targeted shapes: cycles through all kinds, self references, tuple cycles, '
-            'TLS-only reachability, sharing through each representation, growth/shrink/rehash, box ownership, chains up to the cap. '
+            'TLS-only reachability, sharing through each representation, growth/shrink/rehash, box ownership, chains up to the cap, the matrix leaf-typed target x '
+            'reference-bearing source for sequences and maps (direct and via copy+clear), growth after re-typing. '
             'non-trivial item = a collection that marked at least 2 objects and swept at least 1 (exact mode) or a forced collection with at least 2 live '
             'objects (full mode); distinct = distinct op-file prefix up to that collection.')
-    trusted_base = ('translate/g_gcmark.py (regex over src/GC.c, Mark instances of Array/List/Table/Tree/Tuple/Thread)',
+    trusted_base = ('translate/g_gcmark.py (regex over src/GC.c, Mark instances of Array/List/Table/Tree/Tuple/Thread, container structs, writers of the type members)',
+                    'the content of a container after assign / copy (element values, types) is checked by the harness against its shadow, not proved (C04/C10 cover assign)',
                     'harness/h_gcmark.c + lean/Driver/GcMark.lean + lean/Cello/HeapOps.lean (correspondence is testing)',
                     'the registry probe inside GC_Mark_Item / GC_Sweep is modelled as a finite map (C17 covers the registry)',
                     'exact mode replicates the 8-line root loop of GC_Mark in the harness (the real loop runs in full mode)')
@@ -393,7 +577,10 @@ class C01(Spec):
                    'heap Tuples and user Mark instances hand only non-NULL pointers to registered objects; explicit del only of objects that nothing usable points to '
                    'and that no Tuple / user Mark instance which has become garbage (and may not have been swept yet) pointed to: otherwise the next collection '
                    'reads freed memory (known finding KF-C01-dangling-tuple-item, witness corpus/kf_c01_dangling_tuple.ops)',
-                   'full mode: survivors may exceed the reachable set (conservative stack scan); only reachable objects are used by later ops')
+                   'full mode: survivors may exceed the reachable set (conservative stack scan); only reachable objects are used by later ops',
+                   're-typing: assign only sequence<-sequence (Array, List; also from a heap Tuple without Box items), map<-map (Table, Tree), Tuple<-Tuple, target != source; '
+                   'element types Ref / Int / String / Float (no Box elements: two Boxes would own one target). A heap Tuple assigned from an Array / List stores pointers '
+                   'INTO the source\'s element storage (dangling after the source changes: same family as KF-C01-dangling-tuple-item) and is not generated')
     def cases(self, rng, tier, boost=1):
         quick = tier == 'quick'
         cs = []
@@ -403,12 +590,12 @@ class C01(Spec):
             big = (i % 9 == 8)
             if quick: nops, maxobj = (420, 400) if big else (rng.randrange(30, 130), rng.randrange(8, 60))
             else: nops, maxobj = (rng.choice([2500, 5000]), rng.choice([1200, 3000])) if (i % 40 == 39) else ((900, 600) if big else (rng.randrange(30, 250), rng.randrange(8, 120)))
-            sh = gen_exact(rng, nops, maxobj, ncollect=max(2, nops // rng.choice([8, 15, 30])))
+            sh = gen_exact(rng, nops, maxobj, ncollect=max(2, nops // rng.choice([8, 15, 30])), focus=(i % 3 == 1))
             cs.append(Case(f'exact{i}', sh.lines, meta=dict(stats=sh.stats)))
         nfu = (50 if quick else 1200) * boost
         for i in range(nfu):
             nops = rng.randrange(60, 220) if quick else rng.randrange(60, 900)
-            sh = gen_full(rng, nops, rng.choice([3, 6, 12]))
+            sh = gen_full(rng, nops, rng.choice([3, 6, 12]), focus=(i % 3 == 1))
             cs.append(Case(f'full{i}', sh.lines, meta=dict(stats=sh.stats)))
         return cs
     def _collections(self, case, c_out):
@@ -457,6 +644,14 @@ class C01(Spec):
         for i in range(len(ls) - 1):
             if ls[i].startswith('O x ') and ls[i + 1].startswith('R rec=') and ls[i + 1] not in ('R rec=agree', 'R rec=skipped'):
                 return f'worklist marker `{ls[i]}` but recursive marker: `{ls[i + 1]}`'
+            if ls[i + 1] == 'R retype=differ':
+                return f're-typing op `{ls[i]}`: the interpreter\'s object differs from Obj.assignFrom / copyOf / cleared (the operation the theorems are about)'
         return None
+    def compare(self, case, c_out, m_out):
+        d = core.first_divergence(c_out, m_out)
+        if d is None and 'R retype=differ' in m_out:
+            obs = core.lines_with('O ', m_out)
+            return (len(obs), '<model-internal>', 'R retype=differ: a re-typing op of the interpreter is not Obj.assignFrom / copyOf / cleared')
+        return d
 
 SPEC = C01()
